@@ -10,6 +10,32 @@ use crate::state::flags::*;
 use crate::helpers::macros::calculate_rm_r;
 use crate::helpers::macros::fatal_error;
 
+/// SHR of a `bits`-wide operand (zero-extended in `d`) by the count `s` as the CPU does it:
+/// the count is masked to 5 bits (6 bits for 64-bit operands); a masked count of 0 leaves the
+/// operand and all flags untouched. Returns the result and the CF/OF flags to set.
+fn shr_bits(d: u64, s: u8, bits: u32) -> (u64, u64) {
+    let count = (s & if bits == 64 { 0x3f } else { 0x1f }) as u32;
+    if count == 0 {
+        return (d, FLAGS_UNAFFECTED);
+    }
+
+    let result = if count < bits { d >> count } else { 0 };
+
+    // CF is the last bit shifted out, i.e. bit `count - 1` of the operand
+    let cf = count <= bits && (d >> (count - 1)) & 1 != 0;
+    // OF is only defined for 1-bit shifts: the most significant bit of the original operand
+    let of = count == 1 && (d >> (bits - 1)) & 1 != 0;
+
+    let mut flags = 0;
+    if cf {
+        flags |= FLAG_CF;
+    }
+    if of {
+        flags |= FLAG_OF;
+    }
+    (result, flags)
+}
+
 impl Axecutor {
     pub(crate) fn mnemonic_shr(&mut self, i: Instruction) -> Result<(), AxError> {
         debug_assert_eq!(i.mnemonic(), Shr);
@@ -37,22 +63,10 @@ impl Axecutor {
     fn instr_shr_rm8_imm8(&mut self, i: Instruction) -> Result<(), AxError> {
         debug_assert_eq!(i.code(), Shr_rm8_imm8);
 
-        calculate_rm_imm![u8f; self; i; |d: u8, s:u8| {
-            assert_ne!(s, 1, "SHR r/m8, 1 should be handled by opcode SHR r/m8, 1");
-
-            if s == 0 {
-                return (d, FLAGS_UNAFFECTED);
-            }
-
-            match d.checked_shr((s&0x1f) as u32) {
-                Some(v) => {
-                    let cf = if d & (1 << ((s-1)&0x1f)) != 0 { FLAG_CF } else {0};
-
-                    (v, cf)
-                }
-                None => (0, if s == 8 && d & 0x80 != 0 { FLAG_CF } else {0})
-            }
-        }; (set: FLAG_PF | FLAG_ZF | FLAG_SF; clear: FLAG_CF)]
+        calculate_rm_imm![u8f; self; i; |d: u8, s: u8| {
+            let (result, flags) = shr_bits(d as u64, s, 8);
+            (result as u8, flags)
+        }; (set: FLAG_PF | FLAG_ZF | FLAG_SF; clear: FLAG_CF | FLAG_OF)]
     }
 
     /// SHR r/m16, imm8
@@ -61,22 +75,10 @@ impl Axecutor {
     fn instr_shr_rm16_imm8(&mut self, i: Instruction) -> Result<(), AxError> {
         debug_assert_eq!(i.code(), Shr_rm16_imm8);
 
-        calculate_rm_imm![u16f; u8; self; i; |d: u16, s:u8| {
-            assert_ne!(s, 1, "SHR r/m16, 1 should be handled by opcode SHR r/m16, 1");
-
-            if s == 0 {
-                return (d, FLAGS_UNAFFECTED);
-            }
-
-            match d.checked_shr((s&0x1f) as u32) {
-                Some(v) => {
-                    let cf = if d & (1 << ((s-1)&0x1f)) != 0 { FLAG_CF } else {0};
-
-                    (v, cf)
-                }
-                None => (0, if s == 16 && d & 0x8000 != 0 { FLAG_CF } else {0})
-            }
-        }; (set: FLAG_PF | FLAG_ZF | FLAG_SF; clear: FLAG_CF)]
+        calculate_rm_imm![u16f; u8; self; i; |d: u16, s: u8| {
+            let (result, flags) = shr_bits(d as u64, s, 16);
+            (result as u16, flags)
+        }; (set: FLAG_PF | FLAG_ZF | FLAG_SF; clear: FLAG_CF | FLAG_OF)]
     }
 
     /// SHR r/m32, imm8
@@ -85,22 +87,10 @@ impl Axecutor {
     fn instr_shr_rm32_imm8(&mut self, i: Instruction) -> Result<(), AxError> {
         debug_assert_eq!(i.code(), Shr_rm32_imm8);
 
-        calculate_rm_imm![u32f; u8; self; i; |d: u32, s:u8| {
-            assert_ne!(s, 1, "SHR r/m32, 1 should be handled by opcode SHR r/m32, 1");
-
-            if s == 0 {
-                return (d, FLAGS_UNAFFECTED);
-            }
-
-            match d.checked_shr((s&0x1f) as u32) {
-                Some(v) => {
-                    let cf = if d & (1 << ((s-1)&0x1f)) != 0 { FLAG_CF } else {0};
-
-                    (v, cf)
-                }
-                None => (0, if s == 32 && d & 0x8000_0000 != 0 { FLAG_CF } else {0})
-            }
-        }; (set: FLAG_PF | FLAG_ZF | FLAG_SF; clear: FLAG_CF)]
+        calculate_rm_imm![u32f; u8; self; i; |d: u32, s: u8| {
+            let (result, flags) = shr_bits(d as u64, s, 32);
+            (result as u32, flags)
+        }; (set: FLAG_PF | FLAG_ZF | FLAG_SF; clear: FLAG_CF | FLAG_OF)]
     }
 
     /// SHR r/m64, imm8
@@ -109,22 +99,10 @@ impl Axecutor {
     fn instr_shr_rm64_imm8(&mut self, i: Instruction) -> Result<(), AxError> {
         debug_assert_eq!(i.code(), Shr_rm64_imm8);
 
-        calculate_rm_imm![u64f; u8; self; i; |d: u64, s:u8| {
-            assert_ne!(s, 1, "SHR r/m64, 1 should be handled by opcode SHR r/m64, 1");
-
-            if s == 0 {
-                return (d, FLAGS_UNAFFECTED);
-            }
-
-            match d.checked_shr((s&0x1f) as u32) {
-                Some(v) => {
-                    let cf = if d & (1 << ((s-1)&0x1f)) != 0 { FLAG_CF } else {0};
-
-                    (v, cf)
-                }
-                None => (0, if s == 64 && d & 0x8000_0000_0000_0000 != 0 { FLAG_CF } else {0})
-            }
-        }; (set: FLAG_PF | FLAG_ZF | FLAG_SF; clear: FLAG_CF)]
+        calculate_rm_imm![u64f; u8; self; i; |d: u64, s: u8| {
+            let (result, flags) = shr_bits(d as u64, s, 64);
+            (result as u64, flags)
+        }; (set: FLAG_PF | FLAG_ZF | FLAG_SF; clear: FLAG_CF | FLAG_OF)]
     }
 
     /// SHR r/m8, 1
@@ -202,19 +180,8 @@ impl Axecutor {
         debug_assert_eq!(i.code(), Shr_rm8_CL);
 
         calculate_rm_r![u8f; self; i; |d: u8, s: u8| {
-            if s == 0 {
-                return (d, FLAGS_UNAFFECTED);
-            }
-
-            match d.checked_shr((s&0x1f) as u32) {
-                Some(v) => {
-                    let cf = if d & (1 << ((s-1)&0x1f)) != 0 { FLAG_CF } else {0};
-                    let of = if s == 1 && d & 0x80 != 0 { FLAG_OF } else {0};
-
-                    (v, cf|of)
-                }
-                None => (0, if s == 8 && d & 0x80 != 0 { FLAG_CF } else {0})
-            }
+            let (result, flags) = shr_bits(d as u64, s, 8);
+            (result as u8, flags)
         }; (set: FLAG_PF | FLAG_ZF | FLAG_SF; clear: FLAG_CF | FLAG_OF)]
     }
 
@@ -225,19 +192,8 @@ impl Axecutor {
         debug_assert_eq!(i.code(), Shr_rm16_CL);
 
         calculate_rm_r![u16f; u8; self; i; |d: u16, s: u8| {
-            if s == 0 {
-                return (d, FLAGS_UNAFFECTED);
-            }
-
-            match d.checked_shr((s&0x1f) as u32) {
-                Some(v) => {
-                    let cf = if d & (1 << ((s-1)&0x1f)) != 0 { FLAG_CF } else {0};
-                    let of = if s == 1 && d & 0x8000 != 0 { FLAG_OF } else {0};
-
-                    (v, cf|of)
-                }
-                None => (0, if s == 16 && d & 0x8000 != 0 { FLAG_CF } else {0})
-            }
+            let (result, flags) = shr_bits(d as u64, s, 16);
+            (result as u16, flags)
         }; (set: FLAG_PF | FLAG_ZF | FLAG_SF; clear: FLAG_CF | FLAG_OF)]
     }
 
@@ -248,19 +204,8 @@ impl Axecutor {
         debug_assert_eq!(i.code(), Shr_rm32_CL);
 
         calculate_rm_r![u32f; u8; self; i; |d: u32, s: u8| {
-            if s == 0 {
-                return (d, FLAGS_UNAFFECTED);
-            }
-
-            match d.checked_shr((s&0x1f) as u32) {
-                Some(v) => {
-                    let cf = if d & (1 << ((s-1)&0x1f)) != 0 { FLAG_CF } else {0};
-                    let of = if s == 1 && d & 0x8000_0000 != 0 { FLAG_OF } else {0};
-
-                    (v, cf|of)
-                }
-                None => (0, if s == 32 && d & 0x8000_0000 != 0 { FLAG_CF } else {0})
-            }
+            let (result, flags) = shr_bits(d as u64, s, 32);
+            (result as u32, flags)
         }; (set: FLAG_PF | FLAG_ZF | FLAG_SF; clear: FLAG_CF | FLAG_OF)]
     }
 
@@ -271,19 +216,8 @@ impl Axecutor {
         debug_assert_eq!(i.code(), Shr_rm64_CL);
 
         calculate_rm_r![u64f; u8; self; i; |d: u64, s: u8| {
-            if s == 0 {
-                return (d, FLAGS_UNAFFECTED);
-            }
-
-            match d.checked_shr((s&0x1f) as u32) {
-                Some(v) => {
-                    let cf = if d & (1 << ((s-1)&0x1f)) != 0 { FLAG_CF } else {0};
-                    let of = if s == 1 && d & 0x8000_0000_0000_0000 != 0 { FLAG_OF } else {0};
-
-                    (v, cf|of)
-                }
-                None => (0, if s == 64 && d & 0x8000_0000_0000_0000 != 0 { FLAG_CF } else {0})
-            }
+            let (result, flags) = shr_bits(d as u64, s, 64);
+            (result as u64, flags)
         }; (set: FLAG_PF | FLAG_ZF | FLAG_SF; clear: FLAG_CF | FLAG_OF)]
     }
 }
